@@ -5,12 +5,13 @@ from hypothesis import strategies as st
 
 from tcv import hyp
 from tcv.hyp import Violation
-from tcv.sched import Boom, Controller, out_of
+from tcv.sched import EXC, Boom, Controller, Hang, out_of
 
 LEVEL = 'exploration'
 RULE = (
     'Cases = (function: utils.threading.parallel_map | utils.iter.parallel_map, n in 0..40 distinct elements as list '
-    'or generator, threads 1..8, chunksize 1..12, sort flag, set of raising elements, completion priority). The mapped '
+    'or generator, threads 1..8, chunksize 1..12, sort flag, set of raising elements, completion priority, call form: '
+    'progress bar on/off, sort / chunksize left at their defaults, total=, desc=, parallel_starmap). The mapped '
     'function blocks every call on an event; a controller waits until the in-flight set is maximal and releases the '
     'in-flight call with the best generated priority, so the completion order is a generated input. Exhaustive part: '
     'n in 1..5 in one chunk, threads 2..n+1, ALL n! priority orders, both functions, sort on/off. chunked: generated '
@@ -26,6 +27,9 @@ ASSUMPTIONS = [
 ]
 
 
+HANG_S = 30   # harness alarm for a call that does not come back (a verdict only if nothing is left to wait for)
+
+
 def elems_for(n, none_at=None):
     xs = [(i * 37 + 11) % 1009 for i in range(n)]
     if none_at is not None and n:
@@ -38,34 +42,88 @@ def _call(case):
     from taskchain.utils import iter as titer
     n = case['n']
     xs = elems_for(n, case.get('none_at'))
+    form = case.get('form') or {}
+    if form.get('default_chunksize'):
+        case = dict(case, chunksize=1000)
+    if form.get('default_sort'):
+        case = dict(case, sort=True)
     chunksize = case['chunksize'] if case['fn'] == 'threading' else None
-    ctl = Controller(xs, case['threads'], chunksize, case['priority'], case.get('raising', ()))
+    ctl = Controller(xs, case['threads'], chunksize, case['priority'], case.get('raising', ()), exc=case.get('exc', 'Boom'))
     arg = (x for x in xs) if case.get('gen') else list(xs)
     result, error = None, None
+    import asyncio
+    import signal
+
+    def on_alarm(signum, frame):
+        raise Hang()
+
+    old_handler = signal.signal(signal.SIGALRM, on_alarm)
+    signal.alarm(HANG_S)
     with ctl:
         try:
-            if case['fn'] == 'threading':
-                result = tthr.parallel_map(ctl.f, arg, threads=case['threads'], sort=case['sort'], use_tqdm=False,
-                                           chunksize=case['chunksize'])
-            else:
-                result = titer.parallel_map(ctl.f, arg, threads=case['threads'])
-        except Boom as e:
+            form = case.get('form') or {}
+            with hyp.quiet_output():
+                if case['fn'] == 'threading':
+                    kw = {'threads': case['threads'], 'use_tqdm': bool(form.get('tqdm'))}
+                    if not form.get('default_sort'):
+                        kw['sort'] = case['sort']
+                    if not form.get('default_chunksize'):
+                        kw['chunksize'] = case['chunksize']
+                    if form.get('total'):
+                        kw['total'] = n
+                    if form.get('desc'):
+                        kw['desc'] = 'tcv'
+                    if form.get('starmap'):
+                        # parallel_starmap(f, [(x,), ...]) == [f(x) for ...]
+                        arg = ((x,) for x in xs) if case.get('gen') else [(x,) for x in xs]
+                        result = tthr.parallel_starmap(ctl.f, arg, **kw)
+                    else:
+                        result = tthr.parallel_map(ctl.f, arg, **kw)
+                else:
+                    kw = {'threads': case['threads']}
+                    if form.get('total'):
+                        kw['total'] = n
+                    if form.get('desc'):
+                        kw['desc'] = 'tcv'
+                    result = titer.parallel_map(ctl.f, arg, **kw)
+        except tuple(EXC.values()) as e:
             error = e
+        except Hang as e:
+            error = e
+            asyncio.set_event_loop(asyncio.new_event_loop())   # the interrupted loop still holds the dead call's futures
         except Exception as e:  # any other exception type is not "an exception raised by f"
             error = e
+        finally:
+            signal.alarm(0)
+            signal.signal(signal.SIGALRM, old_handler)
+    if isinstance(error, Hang):
+        with ctl.cv:
+            idle = not ctl.inflight and ctl.finished_calls == len(ctl.calls)
+        if idle and not ctl.stuck:
+            # every call of f that was started has returned or raised long ago and nothing is in flight: there is
+            # nothing left to wait for, yet the function has not come back
+            raise Violation('did-not-return-although-every-call-of-f-finished',
+                            {'case': case, 'calls': ctl.calls, 'completions': ctl.completions, 'waited_s': HANG_S})
+        raise hyp.Inconclusive('parallel_map did not return within the harness alarm')
     ctl.check_not_stuck()
     return xs, ctl, result, error
 
 
 def eval_case(case, rec):
-    xs, ctl, result, error = _call(case)
+    case0 = case
+    form = case.get('form') or {}
+    if form.get('default_chunksize'):
+        case = dict(case, chunksize=1000)   # the documented default
+    if form.get('default_sort'):
+        case = dict(case, sort=True)
+    xs, ctl, result, error = _call(case0)
     n = len(xs)
     raising = set(case.get('raising', ()))
     calls = sorted(ctl.calls)
     info = {'case': case, 'calls': ctl.calls, 'completions': ctl.completions}
     if len(calls) != len(set(calls)):
         raise Violation('f-called-twice', info)
-    if error is not None and not isinstance(error, Boom):
+    if error is not None and not isinstance(error, EXC[case.get('exc', 'Boom')]):
         raise Violation('foreign-exception', dict(info, error=repr(error)))
     if not raising:
         if error is not None:
@@ -103,6 +161,7 @@ def eval_case(case, rec):
     cl = [case['fn'], 'inversion' if inv else 'in-order', 'threads=1' if case['threads'] == 1 else 'threads>1']
     if raising:
         cl.append('raising')
+        cl.append('raising:' + case.get('exc', 'Boom'))
     if n == 0:
         cl.append('empty')
     if case['fn'] == 'threading' and n % max(1, case['chunksize']) != 0 and n > case['chunksize']:
@@ -111,6 +170,7 @@ def eval_case(case, rec):
         cl.append('unsorted')
     if case.get('none_at') is not None and n:
         cl.append('none-element')
+    cl += ['form:' + k for k, v in sorted(form.items()) if v]
     if ctl.fallback_releases:
         cl.append('controller-fallback')
     rec.case(case, nontrivial=inv or bool(raising), classes=cl,
@@ -129,8 +189,13 @@ def cases(draw):
     if n and draw(st.integers(0, 3)) == 0:
         raising = sorted(draw(st.sets(st.integers(0, n - 1), min_size=1, max_size=3)))
     none_at = draw(st.one_of(st.none(), st.none(), st.integers(0, 40)))
+    exc = draw(st.sampled_from(['Boom', 'Boom', 'Stop', 'Key']))
+    # call forms: progress bar on (the default), sort / chunksize left at their defaults, total=, desc=, parallel_starmap
+    form = {k: draw(st.integers(0, 3)) == 0 for k in ('tqdm', 'default_sort', 'default_chunksize', 'total', 'desc', 'starmap')}
+    if draw(st.booleans()):
+        form = {}
     return {'fn': fn, 'n': n, 'none_at': none_at, 'gen': draw(st.booleans()), 'threads': threads, 'chunksize': chunksize, 'sort': sort,
-            'priority': list(priority), 'raising': raising}
+            'priority': list(priority), 'raising': raising, 'form': form, 'exc': exc}
 
 
 # ---- chunked -------------------------------------------------------------------------------------
